@@ -259,8 +259,7 @@ func (c *OneCRL) Check(cert *x509.Certificate) *Entry {
 	// check for BlockedSPKIs first
 	for _, blocked := range c.Blocked {
 		if bytes.Equal(blocked.RawSubject, cert.RawSubject) {
-			pubKeyData, _ := x509.MarshalPKIXPublicKey(cert.PublicKey)
-			hash := sha256.Sum256(pubKeyData)
+			hash := sha256.Sum256(cert.RawSubjectPublicKeyInfo)
 			if bytes.Equal(blocked.PubKeyHash, hash[:]) {
 				return &Entry{
 					SubjectAndPublicKey: &SubjectAndPublicKey{
